@@ -127,6 +127,7 @@ def specType (env : SEnv) : TSpec → Option CType
     pure (declType d q)
   | .typeofE e => do
     let r ← typeOf env e
+    if r.bf then none                              -- C23 6.7.2.5p2: not applied to a bit-field member
     pure r.ty
   | .atomicOf s kw d => do
     -- 6.7.2.4p3: the type name shall not refer to an array, function, atomic or qualified type
